@@ -8,8 +8,13 @@ package chain
 func AlphaPayments(w *World) []Action {
 	return []Action{
 		V1Pay(false, 1), V1Pay(true, 2), V1Chain(),
-		V2Pay(AddrV2, true, 2), V2Pay(AddrV1, false, 1), V2Pay(AddrACS, true, 1), V2Pay(AddrThresh, true, 2), V2Chain(AddrV2), V2Chain(AddrACS),
+		V2Pay(AddrV2, true, 2), V2Pay(AddrV1, false, 1), V2Pay(AddrACS, true, 1), V2Chain(AddrV2), V2Chain(AddrACS),
 	}
+}
+
+// AlphaPaymentsThorough adds the threshold-policy class (thorough tiers).
+func AlphaPaymentsThorough(w *World) []Action {
+	return append(AlphaPayments(w), V2Pay(AddrThresh, true, 2))
 }
 
 // AlphaSiafunds: contract formation (moves the tax pool) and siafund spends with claims.
